@@ -333,10 +333,14 @@ func checkC02(r *Run) {
 			}
 		}
 	}
+	// "size > min(4 MiB, msize)" refuted stands for both comparisons refuted
+	minRefuted := func(st *HState) bool {
+		return st.holds(sizeN+" > min(maximumLength, "+msizeN+")", false) || st.holds(sizeN+" > min("+msizeN+", maximumLength)", false)
+	}
 	boundFacts := func(st *HState) (bool, string) {
 		a := st.holds("headerLength > "+sizeN, false)
-		b := st.holds(sizeN+" > maximumLength", false)
-		c := st.holds(sizeN+" > "+msizeN, false)
+		b := st.holds(sizeN+" > maximumLength", false) || minRefuted(st)
+		c := st.holds(sizeN+" > "+msizeN, false) || minRefuted(st)
 		return a && b && c, fmt.Sprintf("size ≥ headerLength: %v, size ≤ 4 MiB: %v, size ≤ msize: %v", a, b, c)
 	}
 	nAlloc := 0
@@ -503,7 +507,7 @@ func checkC02(r *Run) {
 		}
 		readBody := ex.St.May["vecnet.Buffers.ReadFrom"] || ex.St.May["io.Copy"] || ex.St.May["io.LimitReader"]
 		// r4: size-check exits read nothing beyond the header
-		sizeExit := !ex.St.holds("headerLength > "+sizeN, false) || !(ex.St.holds(sizeN+" > maximumLength", false) && ex.St.holds(sizeN+" > "+msizeN, false))
+		sizeExit := !ex.St.holds("headerLength > "+sizeN, false) || !(ex.St.holds(sizeN+" > maximumLength", false) && ex.St.holds(sizeN+" > "+msizeN, false) || minRefuted(ex.St))
 		if sizeExit && ex.St.Must["p9.buffer.Read32"] {
 			r.check(isConn && !readBody && !ex.St.May[""] && !mayCallLookup(ex.St), "r4", key+": bad size ends the connection without reading the body", ex.Ret.Pos(), "ConnError, nothing read after the header",
 				"a size field below 7 or above the limit does not end the connection before anything else is read from the stream")
